@@ -186,6 +186,8 @@ def run_check(prop: str, tier: str, seed: int) -> int:
         "steps_executed": stats.steps,
         "simulated_time_note": "there is no clock in this system; simulated time is reported as logical steps (ops interpreted)",
         "runs_per_hour": int(stats.runs / wall * 3600) if wall > 0 else 0,
+        "seeds_per_hour": int(stats.runs / wall * 3600) if wall > 0 else 0,
+        "seed_note": "every run draws from its own PRNG stream sha256(VERIF_SEED/property/run/stream): one run = one derived seed = one exactly repeatable execution",
         "fault_counts": dict(stats.faults),
         "reach_probes": dict(sorted(stats.probes.items())),
         "inconclusive": dict(stats.inconclusive),
